@@ -329,6 +329,9 @@ let srcfp_line (line : string) : string =
     | "argmax_u8_avx2" -> fp_argmax_u8_avx2 rows st, ext_max (z 1) rows st (z 64), balign_mat_src
     | "max_u8_avx2" -> fp_max_u8_avx2 rows st, ext_max (z 1) rows st (z 32), balign_mat_src
     | "argmax_sse2" -> fp_argmax_sse2 (z c) rows st, ext_max (z 4) rows st (z (4 * c)), balign_mat_src
+    | "encode_into_neon" -> fp_encode_into_neon (z (gi "L")), ext_encode (z (gi "L")) (z (gi "L")), balign_slices
+    | "score_f32_neon" -> fp_score_f32_neon (z c) p, ext_score (z 4) p, balign_mat16
+    | "score_u8_neon" -> fp_score_u8_neon (z c) p, ext_score (z 1) p, balign_mat16
     | k -> failwith ("unknown kernel " ^ k) in
   ignore es;
   let wide = List.filter (fun (_, _, w, _, _) -> w >= 4) in
@@ -341,6 +344,29 @@ let srcfp_line (line : string) : string =
     | x :: a', y :: b' -> if x = y then first_diff a' b'
                           else if compare x y < 0 then Some ("model-only:" ^ show x) else Some ("source-only:" ^ show y) in
   let src_accs = List.map untup src in
+  (* the NEON scoring wrappers as transcribed from neon.rs (with the row-range check of commit 9cd9b52:
+     ranged = true; before that commit — finding F26 — they had none) *)
+  let neon_wrapper = match kernel with
+    | "score_f32_neon" -> Some (wrap_score_f32_neon true (z c) p)
+    | "score_u8_neon" -> Some (wrap_score_u8_neon true (z c) p)
+    | _ -> None in
+  let sets_equal = (first_diff m sset = None) in
+  (* what the wrapper does according to its SOURCE (interpreter): 2 = enters the kernel, 1 = returns early,
+     0 = panics; compared with the model's wrapper *)
+  let code = function Ok (Entered _) -> 2 | Ok Skipped -> 1 | _ -> 0 in
+  match neon_wrapper with
+  | Some g when gs "entered" <> "" && gi "entered" <> code g ->
+      Printf.sprintf "%s DIFF srcfp:%s:wrapper-guard-source=%d-model=%d(2=enters,1=returns,0=panics;K=%d,L=%d,SR=%d,wrap=%d,M=%d,rows=%d..%d)"
+        id kernel (gi "entered") (code g) (gi "K") (gi "L") (gi "SR") (gi "wrap") (gi "M") (gi "a") (gi "b")
+  | Some g when code g <> 2 -> Printf.sprintf "%s OK 0" id
+  | Some (Ok (Entered accs)) when sets_equal && not (check_C06 ext balign accs) ->
+      (* (this was finding F26, repaired in 9cd9b52; by fp_score_*_neon_safe it cannot happen while the guard
+         comparison above passes) model (wrapper + kernel as in neon.rs) and source-derived footprint agree, the
+         call passes the guards neon.rs has, and the extracted checker rejects an access *)
+      Printf.sprintf "%s PROPFAIL srcfp:%s:neon-wrapper-lacks-the-row-range-guard:%s(static:source-interpreter+model,not-executed;K=%d,L=%d,SR=%d,wrap=%d,M=%d,rows=%d..%d,C=%d)"
+        id kernel (match first_bad ext balign accs with Some a -> show_acc a | None -> "?")
+        (gi "K") (gi "L") (gi "SR") (gi "wrap") (gi "M") (gi "a") (gi "b") c
+  | _ ->
   if not (check_C06 ext balign src_accs) then
     Printf.sprintf "%s DIFF srcfp:%s:source-derived-access-fails-the-checker:%s" id kernel
       (match first_bad ext balign src_accs with Some a -> show_acc a | None -> "?")
